@@ -468,3 +468,24 @@ pub fn ref_ws_end(h: &[u8]) -> usize {
     }
     e
 }
+
+/// Declares a *function-contract* harness: `target` is a thin monomorphic wrapper around a konst
+/// function carrying `#[kani::requires]/#[kani::ensures]`; Kani checks the contract with
+/// `proof_for_contract` (callers may then use `#[kani::stub_verified(target)]`).
+/// Same metadata line as `harness!` (use `kind=contract contract_of=<konst fn>`).
+#[macro_export]
+macro_rules! contract_harness {
+    ($(#[$attr:meta])* fn $name:ident($s:ident) for $target:path $body:block) => {
+        pub mod $name {
+            #[allow(unused_imports)]
+            use super::*;
+            pub fn body<S: $crate::hlib::Src>($s: &mut S) $body
+            #[cfg(kani)]
+            #[kani::proof_for_contract($target)]
+            $(#[$attr])*
+            pub fn k() {
+                body(&mut $crate::hlib::KaniSrc)
+            }
+        }
+    };
+}
